@@ -92,6 +92,12 @@ class AstToDjangoQVisitor(visitor.NodeVisitor):
 
         return res
 
+    def generic_visit(self, node: ast._Node):
+        ":meta private:"
+        # Every node that can be expressed has its own visitor method. Anything
+        # else must be refused instead of silently becoming ``None``:
+        raise ex.TypeException("Django", type(node).__name__)
+
     def visit_Identifier(self, node: ast.Identifier) -> F:
         ":meta private:"
         return F(node.name)
